@@ -37,7 +37,8 @@ PROP = dict(
          "X = Y = W, RangeLow = RangeHigh, Title = Textline1, index next to RGB ...), 40 % of them with out-of-range enums; (e) "
          "ein.reuse = a message list is converted, its message OBJECTS are overwritten in place with a second list (sub-messages "
          "keep their addresses wherever both lists have one; dense messages with every section) and the same pointers are converted "
-         "again; (f) strings of 201-2000 bytes in title, text lines, calibration payload, register id; every record whose input or "
+         "again; (f) strings of 201-2000 bytes in title, text lines, calibration payload, register id; (g) SetCalibrationProfile payloads with ONE "
+         "physical line of 65535 / 65536 / 70000 / 300000 bytes, alone and after a short first line; every record whose input or "
          "output carries a byte string longer than 200 bytes (and every third other record) is executed a second time with "
          "DebugRWPhelpers on: a differing result is what the record reports; ein.fields = the Message.field names of the real "
          "protobuf descriptors reachable from InboundMessage equal Model.In.protoFieldsRead ++ protoFieldsOpaque. Every result of a "
